@@ -69,7 +69,13 @@ func VerifC16Update() {
 	// actual text: arbitrary short bytes, or a text containing a marker line
 	var actual string
 	marker := false
-	switch rt.IntRange(0, 2) {
+	switch rt.IntRange(0, 3) {
+	case 3:
+		// lines ending in CR LF (representable in txtar: the text ends with a newline)
+		c := rt.Byte()
+		rt.Assume(c != '\n' && c != '\r' && c != '-' && c != '$' && c < 0x80)
+		actual = string([]byte{c}) + "\r\nz\r\n"
+		rt.Reach("actual-with-crlf-lines")
 	case 2:
 		// a text much longer than any golden entry (and than the marker line that follows it)
 		c := rt.Byte()
